@@ -25,6 +25,11 @@ UNDEF_CONSTS = ['FOO', 'UNDEFINED', 'BASE_ADDR', 'NOPE', 'RCU_BASE_ADDR', 'k0']
 
 # (variant, faulty line, control line, [valid companion lines inserted after it])
 RANGE_INSTR = [
+    # values with more decimal digits than Python will print (int -> str stops at 4300 digits since 3.11)
+    ('I-astronomic', 'addi x5, x6, 1 << 20000', 'addi x5, x6, 1 << 10'),
+    ('I-astronomic-neg-c', 'addi x8, x8, -(1 << 15000)', 'addi x8, x8, -(1 << 4)'),
+    ('U-astronomic', 'lui x5, 1 << 20000', 'lui x5, 1 << 19'),
+    ('B-astronomic', 'beq x5, x6, 1 << 20000', 'beq x5, x6, 1 << 3'),
     ('I-hi', 'addi x5, x6, 2048', 'addi x5, x6, 2047'),
     ('I-lo', 'addi x5, x5, -2049', 'addi x5, x5, -2048'),
     ('I-load-hi', 'lw x5, 2048(x6)', 'lw x5, 2044(x6)'),
@@ -96,6 +101,9 @@ RANGE_C = [
     ('c.sub-reg', 'c.sub x7, x8', 'c.sub x8, x9'),
 ]
 RANGE_DATA = [
+    ('dw-astronomic', 'dw 1 << 20000', 'dw 1 << 20'),
+    ('dd-astronomic-neg', 'dd -(1 << 20000)', 'dd -(1 << 20)'),
+    ('pack-astronomic', 'pack <I, 1 << 15000', 'pack <I, 1 << 15'),
     ('db-256', 'db 256', 'db 1', ['db 0']),
     ('db-neg', 'db -129', 'db -128', ['db 0']),
     ('bytes-256', 'bytes 256 0', 'bytes 255 0'),
